@@ -1266,6 +1266,9 @@ func (e *Env) indexValue(base Value, iv Value, at ast.Node) Value {
 	case SeqV:
 		i := e.indexTerm(iv)
 		e.x.safety(e, "index", at, And(Le(IntC(0), i), Lt(i, b.Len)))
+		if b.At != nil {
+			return b.At(i)
+		}
 		if c, ok := i.Int64(); ok {
 			if c < 0 || c >= int64(len(b.Elems)) {
 				// out of range: code cannot continue (the obligation above fails); a specification
